@@ -47,6 +47,8 @@ class Profile:
         self.dup_prob = rng.choice(b.get("dup_prob", [0.0, 0.1, 0.3]))
         self.clone_prob = rng.choice(b.get("clone_prob", [0.0, 0.05, 0.15]))
         self.twin_prob = rng.choice(b.get("twin_prob", [0.0, 0.2, 0.5]))
+        self.mirror_prob = rng.choice(b.get("mirror_prob", [0.0, 0.05, 0.15]))
+        self.sweep_prob = rng.choice(b.get("sweep_prob", [0.0, 0.1, 0.25]))
         self.arm_prob = rng.choice(b.get("arm_prob", [0.1, 0.25, 0.25, 0.5]))
         self.miss_prob = rng.choice(b.get("miss_prob", [0.2, 0.4, 0.6]))
         self.n_points = rng.randint(*b.get("n_points", (2, 5)))
@@ -82,6 +84,7 @@ def gen_world(rng, pr):
     trip_vars = TRIP_VARS[:pr.n_trip]
     miss_vars = MISS_VARS[:pr.n_miss]
     nodes, info = [], []
+    pr.interesting = []          # ids of nodes built by a special construct (groups, duplicates, mirrors, twins)
 
     def add(node, kids=()):
         if kids:
@@ -114,6 +117,24 @@ def gen_world(rng, pr):
         memo[i] = add(node, kids)
         return memo[i]
 
+    def mirror(i, subst, memo):
+        """Copy of the sub-DAG at i with variables renamed by subst and integral constants respelled
+        (3 <-> 3.0): the two copies have ==-equal but differently spelled symmetric partials."""
+        if i in memo:
+            return memo[i]
+        node = dict(nodes[i])
+        kids = [mirror(k, subst, memo) for k in node.pop("kids", [])]
+        if node["op"] == "Variable":
+            node["name"] = subst.get(node["name"], node["name"])
+        elif node["op"] == "Constant":
+            v = node["value"]
+            if isinstance(v, int):
+                node["value"] = float(v)
+            elif isinstance(v, float) and v.is_integer():
+                node["value"] = int(v)
+        memo[i] = add(node, kids)
+        return memo[i]
+
     def pick_kid():
         r = rng.random()
         n = len(nodes)
@@ -134,6 +155,7 @@ def gen_world(rng, pr):
     attempts = 0
     while len(nodes) < pr.n_nodes and attempts < pr.n_nodes * 6:
         attempts += 1
+        special = False
         if trip_vars and rng.random() < pr.trip_prob:
             t = var_ids[rng.choice(trip_vars)]
             form = rng.choice(["Logarithm", "Reciprocal", "NthRoot", "Divide", "Power"])
@@ -170,9 +192,26 @@ def gen_world(rng, pr):
                 members.append(pick_kid())
             rng.shuffle(members)
             cand = ({"op": outer}, members)
+            special = True
         else:
             op = rng.choice(pr.ops)
-            if op in lib.NARY:
+            if op in lib.NARY and len(ord_vars) >= 2 and rng.random() < pr.mirror_prob:
+                # symmetric pair: T(x) and T(y) with int/float respelled constants, under one sum / product
+                cands = [i for i in range(len(nodes)) if 2 <= info[i][1] <= 14 and info[i][2]
+                         and info[i][0] + 1 <= pr.max_depth]
+                if not cands:
+                    continue
+                t = rng.choice(cands)
+                v1 = rng.choice(info[t][2])
+                others = [v for v in ord_vars if v != v1]
+                if not others:
+                    continue
+                t2 = mirror(t, {v1: rng.choice(others)}, {})
+                ks = [t, t2] + ([pick_kid()] if rng.random() < 0.3 else [])
+                rng.shuffle(ks)
+                cand = ({"op": op}, ks)
+                special = True
+            elif op in lib.NARY:
                 ar = rng.choice([0, 1, 2, 2, 2, 3, 3, 4])
                 ks = [pick_kid() for _ in range(ar)]
                 if ks and rng.random() < pr.dup_prob:
@@ -182,6 +221,7 @@ def gen_world(rng, pr):
                             k = add({"op": "Variable", "name": nodes[k]["name"]})   # equal but distinct object
                         ks.append(k)
                     rng.shuffle(ks)
+                    special = True
                 cand = ({"op": op}, ks)
             elif op in lib.BINARY:
                 cand = ({"op": op}, [pick_kid(), pick_kid()])
@@ -199,6 +239,8 @@ def gen_world(rng, pr):
         if depth > pr.max_depth or size > pr.max_size:
             continue
         made = add(node, kids)
+        if special:
+            pr.interesting.append(made)
         if node["op"] in lib.PARAM_N and rng.random() < pr.twin_prob:
             # the twin: same inner, same n, the other class (NthRoot prints itself as NthPower, so
             # anything keyed by printed form confuses the two)
@@ -211,8 +253,8 @@ def gen_world(rng, pr):
                     c = add({"op": "Constant", "value": _const(rng, pr)})
                     extra = pick_kid()
                     if info[extra][0] + 1 <= pr.max_depth and info[extra][1] + size + 2 <= pr.max_size:
-                        add({"op": wrap}, [c, made, extra])
-                        add({"op": wrap}, [c, twin, extra])
+                        pr.interesting.append(add({"op": wrap}, [c, made, extra]))
+                        pr.interesting.append(add({"op": wrap}, [c, twin, extra]))
                 elif wrap == "Sine":
                     add({"op": "Sine"}, [made])
                     add({"op": "Sine"}, [twin])
@@ -489,7 +531,66 @@ def gen_scenario(rng, base=None):
     points = gen_points(rng, pr, ord_vars, trip_vars, miss_vars)
     all_vars = ord_vars + trip_vars + miss_vars
     steps = gen_steps(rng, pr, nodes, info, all_vars, points)
+    if rng.random() < pr.sweep_prob:
+        steps = sweep_steps(rng, pr, nodes, info, points, steps)
     return {"nodes": nodes, "points": points, "steps": steps, "vars": all_vars + ["absent_v"]}
+
+
+def sweep_steps(rng, pr, nodes, info, points, steps):
+    """A systematic sweep over every differentiation route of one node (preferably one built by a
+    special construct), interleaved into the random steps at seeded positions: early and late
+    Differential, every component and its as_expression(), located differentials and every
+    component, early and late Partial per variable, and the normal form of the node."""
+    cands = [i for i in getattr(pr, "interesting", []) if info[i][1] <= pr.heavy_size]
+    if not cands or rng.random() < 0.25:
+        cands = [i for i in range(len(nodes)) if info[i][0] >= 2 and info[i][1] <= pr.heavy_size]
+    if not cands:
+        return steps
+    t = rng.choice(cands)
+    e = f"n{t}"
+    vs = list(info[t][2])[:4]
+    if rng.random() < 0.3:
+        vs.append("absent_v")
+    sid = max([st["id"] for st in steps], default=-1) + 1
+    out = []
+
+    def add(**kw):
+        nonlocal sid
+        kw["id"] = sid
+        kw["c"] = rng.randrange(pr.n_clients)
+        out.append(kw)
+        sid += 1
+        return f"s{sid - 1}"
+    p = rng.randrange(len(points))
+    fe = add(k="mk", cls="Differential", e=e, early=True)
+    fl = add(k="mk", cls="Differential", e=e, early=False)
+    for v in vs:
+        for f in (fe, fl):
+            c = add(k="comp", o=f, v=v, vobj=rng.random() < 0.3)
+            add(k="asx", o=c)
+            add(k="at", o=c, p=p)
+    for f in (fe, fl):
+        l = add(k="dat", o=f, p=p)
+        for v in vs:
+            add(k="lcomp", o=l, v=v)
+    l = add(k="mk", cls="LocatedDifferential", e=e, p=p)
+    for v in vs:
+        add(k="lcomp", o=l, v=v)
+        pe = add(k="mk", cls="Partial", e=e, v=v, early=True)
+        add(k="asx", o=pe)
+        add(k="at", o=pe, p=p)
+    add(k="norm", o=e)
+    # interleave, preserving the relative order of both lists
+    merged = []
+    i = j = 0
+    while i < len(steps) or j < len(out):
+        if j >= len(out) or (i < len(steps) and rng.random() < len(steps) / (len(steps) + len(out))):
+            merged.append(steps[i])
+            i += 1
+        else:
+            merged.append(out[j])
+            j += 1
+    return merged
 
 
 # ---------------------------------------------------------------------------- C06 workload
